@@ -11,6 +11,7 @@
 //               | snewton | powell | simplex | cg | bfgs | meta <full|step>
 //   init <k> {<index> <value> <con>}*k       con : N | I <lo|*> <hi|*> <inclLo> <inclHi>
 //   step | optimize
+//   setmax <n>                                setMaximumNumberOfEvaluations(n) on the optimiser that exists
 //   hint <cond> <inside> <convex> <full> <minimiser_i>*   what the generator knows about the objective (ignored here)
 //   bracket <out|in> <a> <b> <nint> <index> <value> <con> <auto>
 //
@@ -263,6 +264,7 @@ struct Machine {
     if (!opt) return "bad-op";
     // after an exception the optimiser may be half built (step() does not check isInitialized_): it is left alone
     if (dead && (o == "init" || o == "step" || o == "optimize")) return "exc:dead";
+    if (o == "setmax") { opt->setMaximumNumberOfEvaluations((unsigned int)toU(t.at(i++))); return "ok"; }
     if (o == "init") {
       size_t k = toU(t.at(i++));
       std::string a = guarded([&]() -> std::string {
